@@ -9,7 +9,132 @@ import (
 
 // stdIntrinsic2 holds the models added for value codecs, strings, crypto.
 func (in *Interp) stdIntrinsic2(fn *ssa.Function, name string, args []Value) (Value, bool) {
+	if v, ok := in.bufIntrinsic(name, args); ok {
+		return v, true
+	}
 	return nil, false
+}
+
+// invoke calls method name on the dynamic value of an interface.
+func (in *Interp) invoke(iv *IfaceV, name string, args ...Value) Value {
+	if iv == nil {
+		in.goPanic("invoke " + name + " on nil interface")
+	}
+	m := in.findMethod(iv.typ, name)
+	if m == nil {
+		in.unsupported("method %s not found on %s", name, iv.typ)
+	}
+	return in.callFunc(&FuncV{fn: m}, append([]Value{iv.val}, args...))
+}
+
+func (in *Interp) bufOf(p Value) *BufObj {
+	pp, _ := p.(*PtrV)
+	if pp == nil || pp.cell == nil {
+		in.goPanic("nil *bytes.Buffer")
+	}
+	b, ok := pp.cell.v.(*BufObj)
+	if !ok {
+		in.unsupported("bytes.Buffer cell holds %T", pp.cell.v)
+	}
+	return b
+}
+
+func (b *BufObj) rdOff() *Term {
+	if b.rd == nil {
+		return IX(0)
+	}
+	return b.rd
+}
+
+func (in *Interp) bufAppend(b *BufObj, node *ArrNode, off, n *Term) {
+	nn := zeroArr(8).Copy(IX(0), b.s.obj.node, b.s.off, b.s.len).Copy(b.s.len, node, off, n)
+	nl := IArith("+", b.s.len, n)
+	b.s = &SliceV{obj: &ArrObj{node: nn, ew: 8}, off: IX(0), len: nl, cap: nl}
+}
+
+func (in *Interp) bufIntrinsic(name string, args []Value) (Value, bool) {
+	nilErr := (*IfaceV)(nil)
+	switch name {
+	case "bytes.NewBuffer":
+		s := args[0].(*SliceV)
+		return &PtrV{cell: &Cell{&BufObj{s: s}}}, true
+	case "(*bytes.Buffer).Write":
+		b, s := in.bufOf(args[0]), args[1].(*SliceV)
+		in.bufAppend(b, s.obj.node, s.off, s.len)
+		return TupleV{s.len, nilErr}, true
+	case "(*bytes.Buffer).WriteString":
+		b, s := in.bufOf(args[0]), args[1].(*StrV)
+		in.bufAppend(b, s.node, s.off, s.len)
+		return TupleV{s.len, nilErr}, true
+	case "(*bytes.Buffer).WriteByte":
+		b := in.bufOf(args[0])
+		in.bufAppend(b, zeroArr(8).Store(IX(0), args[1].(*Term)), IX(0), IX(1))
+		return nilErr, true
+	case "(*bytes.Buffer).Len":
+		b := in.bufOf(args[0])
+		return IArith("-", b.s.len, b.rdOff()), true
+	case "(*bytes.Buffer).Bytes":
+		b := in.bufOf(args[0])
+		n := IArith("-", b.s.len, b.rdOff())
+		return &SliceV{obj: b.s.obj, off: IArith("+", b.s.off, b.rdOff()), len: n, cap: n}, true
+	case "(*bytes.Buffer).String":
+		b := in.bufOf(args[0])
+		return &StrV{node: b.s.obj.node, off: IArith("+", b.s.off, b.rdOff()), len: IArith("-", b.s.len, b.rdOff())}, true
+	case "(*bytes.Buffer).Read":
+		b, p := in.bufOf(args[0]), args[1].(*SliceV)
+		avail := IArith("-", b.s.len, b.rdOff())
+		if in.branch(ICmp("<=", avail, IntC(0))) {
+			if in.branch(Eq(p.len, IntC(0))) {
+				return TupleV{IX(0), nilErr}, true
+			}
+			return TupleV{IX(0), in.load(&PtrV{cell: in.stdGlobal("io", "EOF")})}, true
+		}
+		n := Ite(ICmp("<", avail, p.len), avail, p.len)
+		p.obj.node = p.obj.node.Copy(p.off, b.s.obj.node, IArith("+", b.s.off, b.rdOff()), n)
+		b.rd = IArith("+", b.rdOff(), n)
+		return TupleV{n, nilErr}, true
+	case "(*bytes.Buffer).ReadFrom":
+		b, r := in.bufOf(args[0]), args[1].(*IfaceV)
+		total := IX(0)
+		for it := 0; ; it++ {
+			if it > in.loopBound {
+				in.end("unwind", "bytes.Buffer.ReadFrom does not terminate within the loop bound")
+			}
+			win := &SliceV{obj: &ArrObj{node: zeroArr(8), ew: 8}, off: IX(0), len: IX(512), cap: IX(512)}
+			res := in.invoke(r, "Read", win).(TupleV)
+			m := res[0].(*Term)
+			if !in.guard(And(ICmp("<=", IntC(0), m), ICmp("<=", m, IntC(512)))) {
+				in.goPanic("bytes.Buffer.ReadFrom: reader returned invalid count")
+			}
+			in.bufAppend(b, win.obj.node, IX(0), m)
+			total = IArith("+", total, m)
+			e, _ := res[1].(*IfaceV)
+			if e != nil {
+				eof := in.load(&PtrV{cell: in.stdGlobal("io", "EOF")}).(*IfaceV)
+				if in.valEq(e, eof).IsTrue() {
+					return TupleV{in.int64Of(total), nilErr}, true
+				}
+				return TupleV{in.int64Of(total), e}, true
+			}
+		}
+	}
+	return nil, false
+}
+
+// int64Of converts an Int term to the 64-bit vector used for Go int64.
+func (in *Interp) int64Of(t *Term) *Term { return Int2BV(t, 64) }
+
+// stdGlobal returns the cell of a standard-library package-level variable.
+func (in *Interp) stdGlobal(pkg, name string) *Cell {
+	p := in.prog.ImportedPackage(pkg)
+	if p == nil {
+		in.unsupported("package %s not loaded", pkg)
+	}
+	g, ok := p.Members[name].(*ssa.Global)
+	if !ok {
+		in.unsupported("no global %s.%s", pkg, name)
+	}
+	return in.global(g)
 }
 
 func (in *Interp) floatBinop(op token.Token, x, y *Term, t types.Type) Value {
